@@ -97,6 +97,7 @@ func c14IdkLine(rng *verifRng, auto bool, nops int) string {
 	}
 	pool = append(pool, key{srcs[rng.intn(2)], 0})
 	var ops, outs []string
+	idleSum := map[key]int64{}
 	for i := 0; i < nops; i++ {
 		now := uint64(bpv7.DtnTimeNow())
 		if !auto && rng.intn(4) == 0 {
@@ -109,6 +110,12 @@ func c14IdkLine(rng *verifRng, auto bool, nops int) string {
 			// time passes without use: the tuple's last use moves into the past (the clock cannot be advanced)
 			k := pool[rng.intn(len(pool))]
 			delta := c14Ages[rng.intn(len(c14Ages)-1)]
+			// the clock is read by the code itself (a few ms after the reading noted here): keep the accumulated idle
+			// time of a tuple away from the retention window, where that skew would decide
+			if d := idleSum[k] + delta - 86400000; d > -10000 && d < 10000 {
+				delta = 0
+			}
+			idleSum[k] += delta
 			src, _ := bpv7.NewEndpointID(k.src)
 			tpl := idTuple{source: src, time: bpv7.DtnTime(k.t)}
 			idk.mutex.Lock()
@@ -127,6 +134,7 @@ func c14IdkLine(rng *verifRng, auto bool, nops int) string {
 		}
 		b.PrimaryBlock.CreationTimestamp[0] = k.t
 		idk.update(&b)
+		idleSum[k] = 0
 		ops = append(ops, fmt.Sprintf("u|%s|%d|%d", k.src, k.t, now))
 		outs = append(outs, fmt.Sprintf("%d|%s", b.PrimaryBlock.CreationTimestamp.SequenceNumber(), c14IdkDump(&idk)))
 	}
